@@ -69,6 +69,8 @@ claimed = {
          "bounds as stated; request streams, stream writers, size-mismatching streams, reset/release without a write outside", "§0 C34"),
  "C40": ("one LBClient call from an arbitrary state with ≤3/≤5 fake clients (symbolic pending, total, penalty ≤ maxPenalty, outcome): routed to the (load, total)-minimal client, penalty step bounded by 300 and undone after 3 s of virtual time; no clients → ErrNoAvailableClients",
          "sequential one-step (inductive) only; concurrent calls outside", "§0 C40"),
+ "C41": ("the real TCPDialer on the engine's scheduler with virtual time and a stubbed OS dialer: 3/4 concurrent DialTimeout calls with Concurrency ∈ {1,2} and endpoints that connect, refuse or hang never have more than Concurrency dials in progress, return by the timeout with a connection, the refusal, or ErrDialTimeout wrapped with the upstream address, and give every slot back; a host resolving to 2..3 addresses is dialled in rotation, each address at most once, a hanging one ends the attempt with ErrDialTimeout",
+         "bounded schedules (blocking points + one yield per dial), choices only; OS dialer, default resolver, cache cleaner outside", "§0 C41"),
 }
 
 na = {
@@ -81,7 +83,6 @@ na = {
  "C37": "data races are not representable in a sequentially consistent interpreter; a solver query over SSA cannot decide happens-before",
  "C38": "wall-clock deadlines under the real scheduler; the engine's virtual clock cannot witness 'returns on time'",
  "C39": "OS process supervision (fork/exec, signals); nothing is left to encode after stubbing the OS",
- "C41": "not built: TCPDialer's slot discipline needs net.Dialer/resolver stubs that were not written in this build",
 }
 
 checks = []
